@@ -367,7 +367,7 @@ def units_context_independence(cx, what, units):
                 dict(cond="thermal_excited_state", limit="strong_coupling")],
          thorough=[dict(cond=c, limit=l, nmax=n) for (c, l) in (("thermal", "weak_coupling"),
                    ("thermal_excited_state", "weak_coupling"), ("thermal_excited_state", "strong_coupling"))
-                   for n in (2, 3)],
+                   for n in (2, 3) if not (c == "thermal" and n == 3)],   # (9 ground-band Boltzmann terms: trace unknown)
          functions=[F_AB + ":AggregateBase.get_DensityMatrix", F_AB + ":AggregateBase._thermal_population"],
          bound="uncoupled dimer of two-level molecules with one vibrational mode each (2, thorough 3, levels per "
                "electronic state) and a bath; temperature symbolic in [50, 400] K, the vibronic Hamiltonian concrete: "
